@@ -78,7 +78,9 @@ struct World {
       port = evdns_add_server_port_with_base(base, srv_udp, 0, cb, arg);     // the port owns (and closes) the socket
       CHECK(port, "harness/setup", "evdns_add_server_port_with_base failed");
     } else {
-      struct evconnlistener *l = evconnlistener_new_bind(base, nullptr, nullptr, LEV_OPT_CLOSE_ON_FREE | LEV_OPT_REUSEABLE, 16, (struct sockaddr *)&sin, sizeof sin);
+      // no SO_REUSEADDR: with it the kernel may hand out an ephemeral port another process is about to listen on (listen() then fails)
+      struct evconnlistener *l = nullptr;
+      for (int attempt = 0; attempt < 50 && !l; attempt++) l = evconnlistener_new_bind(base, nullptr, nullptr, LEV_OPT_CLOSE_ON_FREE, 16, (struct sockaddr *)&sin, sizeof sin);
       CHECK(l, "harness/setup", "evconnlistener_new_bind: %s", strerror(errno));
       socklen_t sl = sizeof sin; getsockname(evconnlistener_get_fd(l), (struct sockaddr *)&sin, &sl); srv_addr = sin;
       port = evdns_add_server_port_with_listener(base, l, 0, cb, arg);          // the port owns (and frees) the listener
@@ -86,6 +88,9 @@ struct World {
     }
   }
   void turn() { event_base_loop(base, EVLOOP_NONBLOCK); }
+  // Loopback delivery is normally synchronous; should the kernel defer it (softirq under load), give it a little real time before an
+  // expected reaction is declared missing.  Only ever lengthens a case that is about to fail.
+  template <class F> void settle(F done) { for (int i = 0; i < 50 && !done(); i++) { struct timespec ts = {0, 1000000}; ppoll(nullptr, 0, &ts, nullptr); turn(); if (tcp) tcp_read(); } }
 
   bool udp_send(const uint8_t *p, size_t n) { ssize_t r = sendto(g_cli, p, n, 0, (const struct sockaddr *)&srv_addr, sizeof srv_addr); return r == (ssize_t)n; }
   bool udp_recv(std::vector<uint8_t> *out) {
@@ -101,7 +106,8 @@ struct World {
     int one = 1; setsockopt(cli_tcp, IPPROTO_TCP, TCP_NODELAY, &one, sizeof one);
     set_nonblock(cli_tcp); tcp_in.clear(); tcp_eof = false;
   }
-  void tcp_close() { if (cli_tcp >= 0) { close(cli_tcp); cli_tcp = -1; } }
+  // abortive close (RST): leaves no TIME_WAIT socket behind, tens of thousands of cases per minute would exhaust the port range
+  void tcp_close() { if (cli_tcp >= 0) { struct linger lg = {1, 0}; setsockopt(cli_tcp, SOL_SOCKET, SO_LINGER, &lg, sizeof lg); close(cli_tcp); cli_tcp = -1; } }
   // send everything (the server's loop is turned whenever the socket is full); false when the peer is gone
   bool tcp_send(const uint8_t *p, size_t n) {
     size_t pos = 0; int stalls = 0;
